@@ -470,3 +470,96 @@ def defaulted_param_aliases(fn: FuncInfo) -> dict:
         if len(src) == 1 and all(isinstance(v, ast.Constant) for v in rest):
             out[name] = src[0].id
     return out
+
+
+def return_dependences(fn: FuncInfo):
+    """[(return node, set of sources)]: the data sources (parameter names and dotted attribute chains such as
+    'self._x.y') each returned value depends on, through the assignments / augmented and element stores / loop targets
+    that PRECEDE the return in source order (flow-insensitive among those; control dependences are not followed).
+    `out[a:b] += v` makes `out` depend on a, b and v;  `for i, d in enumerate(X)` makes i and d depend on X;
+    `x.m(args)` as a statement (in-place method) makes x depend on the arguments."""
+    stmts = stmts_in_order(fn)
+    deps: Dict[str, set] = {p: {p} for p in fn.params}
+
+    def sources(e) -> set:
+        out = set()
+        if e is None:
+            return out
+        comp_bound = set()
+        for x in ast.walk(e):
+            if isinstance(x, (ast.ListComp, ast.SetComp, ast.DictComp, ast.GeneratorExp)):
+                for g in x.generators:
+                    comp_bound |= {t.id for t in ast.walk(g.target) if isinstance(t, ast.Name)}
+        skip = set()
+        for x in ast.walk(e):
+            if id(x) in skip:
+                continue
+            if isinstance(x, ast.Attribute):
+                chain = norm(x)
+                root = x
+                while isinstance(root, ast.Attribute):
+                    root = root.value
+                if isinstance(root, ast.Name):
+                    for y in ast.walk(x):
+                        skip.add(id(y))
+                    out.add(chain)
+                    if root.id in deps and root.id not in fn.params:
+                        # attribute of a local: the local's own sources, each extended by the attribute path
+                        tail = chain[len(root.id):]
+                        out |= {d + tail for d in deps[root.id]} | deps[root.id]
+                    elif root.id in fn.params:
+                        out.add(root.id)
+            elif isinstance(x, ast.Name) and isinstance(x.ctx, ast.Load) and x.id not in comp_bound:
+                out |= deps.get(x.id, set())
+        return out
+
+    def bind(target, src: set, weak: bool):
+        if isinstance(target, ast.Name):
+            deps[target.id] = (deps.get(target.id, set()) | src) if weak else set(src)
+        elif isinstance(target, (ast.Tuple, ast.List)):
+            for t in target.elts:
+                bind(t, src, weak)
+        elif isinstance(target, ast.Starred):
+            bind(target.value, src, weak)
+        elif isinstance(target, (ast.Subscript, ast.Attribute)):
+            root = target
+            extra = set()
+            while isinstance(root, (ast.Subscript, ast.Attribute)):
+                if isinstance(root, ast.Subscript):
+                    extra |= sources(root.slice)
+                root = root.value
+            if isinstance(root, ast.Name):
+                deps[root.id] = deps.get(root.id, set()) | src | extra
+
+    out = []
+    loop_depth_weak = set()
+    for it in range(2):                                  # second pass: loop-carried dependences
+        out = []
+        for s in stmts:
+            in_loop = it == 1
+            if isinstance(s, ast.Assign):
+                src = sources(s.value)
+                for t in s.targets:
+                    bind(t, src, weak=it == 1)
+            elif isinstance(s, ast.AnnAssign) and s.value is not None:
+                bind(s.target, sources(s.value), weak=it == 1)
+            elif isinstance(s, ast.AugAssign):
+                bind(s.target, sources(s.value) | sources(s.target if isinstance(s.target, ast.Name) else None), weak=True)
+            elif isinstance(s, (ast.For, ast.AsyncFor)):
+                bind(s.target, sources(s.iter), weak=it == 1)
+            elif isinstance(s, ast.With):
+                for w in s.items:
+                    if w.optional_vars is not None:
+                        bind(w.optional_vars, sources(w.context_expr), weak=it == 1)
+            elif isinstance(s, ast.Expr) and isinstance(s.value, ast.Call) and isinstance(s.value.func, ast.Attribute):
+                root = s.value.func.value
+                while isinstance(root, (ast.Subscript, ast.Attribute)):
+                    root = root.value
+                if isinstance(root, ast.Name) and root.id in deps and root.id not in fn.params:
+                    src = set()
+                    for a in list(s.value.args) + [k.value for k in s.value.keywords]:
+                        src |= sources(a)
+                    deps[root.id] = deps[root.id] | src
+            elif isinstance(s, ast.Return):
+                out.append((s, sources(s.value)))
+    return out
